@@ -75,15 +75,41 @@ func isPhaseKind(kind string) bool {
 }
 func isPKOKind(gvkGroup string) bool { return gvkGroup == PKOGroup }
 
-// sliceLookupAt returns a slice lookup on the store head of mgmt.
+// sliceLookup returns a slice lookup on the store head of mgmt.
 func (w *World) sliceLookup(owner store.Obj) func(string) store.Obj {
+	return w.sliceLookupOpt(owner, false)
+}
+
+// sliceLookupWithHistory also resolves slices that were deleted since: a deleted slice
+// still says what the revision referencing it lists (used where the question is what a
+// revision "contains", not what PKO can still know about it).
+func (w *World) sliceLookupWithHistory(owner store.Obj) func(string) store.Obj {
+	return w.sliceLookupOpt(owner, true)
+}
+
+func (w *World) sliceLookupOpt(owner store.Obj, history bool) func(string) store.Obj {
 	kind := "ObjectSlice"
 	if isClusterScopedOwner(store.Str(owner, "kind")) {
 		kind = "ClusterObjectSlice"
 	}
 	ns := store.Str(owner, "metadata", "namespace")
 	return func(name string) store.Obj {
-		return w.Mgmt.Objs[store.Key{Group: PKOGroup, Kind: kind, Namespace: ns, Name: name}]
+		key := store.Key{Group: PKOGroup, Kind: kind, Namespace: ns, Name: name}
+		if o, ok := w.Mgmt.Objs[key]; ok {
+			return o
+		}
+		if !history {
+			return nil
+		}
+		for i := len(w.Mgmt.Log) - 1; i >= 0; i-- {
+			if ev := w.Mgmt.Log[i]; ev.Key == key {
+				if ev.After != nil {
+					return ev.After
+				}
+				return ev.Before
+			}
+		}
+		return nil
 	}
 }
 
